@@ -36,10 +36,12 @@ KCLANG = ['-mllvm', '-inline-threshold=100000000'] + sum([['-mllvm', '-force-att
 KROOTS = ['^@thread_entry_', '^@K_', '^@world_']
 
 def kjob(name, src, nt, slices, defines, mode='coop', timeout=900, desc='', unwind=4, mem_gb=12, kn=None):
+    unwind = max(unwind, (kn or nt) + 1)      # harness loops over the model threads
     # kn > nt: additional thread objects that never run (constructed sleepers: pure queue state)
     return Job(name, src, 'sched', roots=KROOTS, defines=['NT=%d' % nt, 'KN=%d' % (kn or nt)] + defines, clang=KCLANG,
                ir2c=KSTUB + (['--cs-none'] if mode == 'coop' else ['--cs-atomic-only', '--cs-before-blocking']), shims=['libc.c', 'sched.c'],
-               cbmc=['-DNT=%d' % nt, '-DSLICES=%d' % slices] + (['-DVERIF_SHARED_ERRNO', '-DVERIF_SPIN_IS_DEADLOCK'] if mode == 'coop' else []),   # one vCPU: errno is shared and a spin is a deadlock; several vCPUs: errno per OS thread, await-as-assume unwind=unwind, unwindset=['f_sched.0:%d' % (slices + 1)], nochecks=False, timeout=timeout, mem_gb=mem_gb,   # (rt/kcontract.h and rt/sched.c are loop-free besides the slice loop)
+               cbmc=['-DNT=%d' % nt, '-DSLICES=%d' % slices] + (['-DVERIF_SHARED_ERRNO', '-DVERIF_SPIN_IS_DEADLOCK'] if mode == 'coop' else []),   # one vCPU: errno is shared and a spin is a deadlock; several vCPUs: errno per OS thread, await-as-assume
+               unwind=unwind, unwindset=['f_sched.0:%d' % (slices + 1)], nochecks=False, timeout=timeout, mem_gb=mem_gb,   # (rt/kcontract.h and rt/sched.c are loop-free besides the slice loop)
                desc=desc, bounds='%d threads, <= %d execution slices, %s scheduling' % (nt, slices, 'cooperative (switch at blocking calls)' if mode == 'coop' else 'pre-emptive at atomic operations'))
 
 # ---- contract-level sync layer (rt/ksync.h): clients of mutex / cv / semaphore
@@ -55,7 +57,8 @@ KSYNC_IR2C = ['--thread', '^@thread_entry_',
     '--blockingc', r'^@_ZN6photon12thread_yieldEv$=K_yield_begin,K_yield_end',
     '--blockingc', r'^@_ZN6photon13thread_usleepENS_7TimeoutE$=K_usleep_begin,K_usleep_end']
 
-def ksjob(name, src, nt, slices, defines, timeout=900, desc='', unwind=4, mem_gb=12, shims=(), preempt=False, stuck_legal=False, extra_ir2c=()):
+def ksjob(name, src, nt, slices, defines, timeout=900, desc='', unwind=4, mem_gb=12, shims=(), preempt=False, stuck_legal=False, extra_ir2c=(), exact_unwind=False):
+    if not exact_unwind: unwind = max(unwind, nt + 1)      # harness loops over the model threads (C11's harness is loop-free: exact_unwind)
     return Job(name, src, 'sched', roots=KROOTS, defines=['NT=%d' % nt, 'KN=%d' % nt] + defines, clang=['-mllvm', '-inline-threshold=100000000'],
                ir2c=KSYNC_IR2C + list(extra_ir2c) + (['--cs-atomic-only', '--cs-before-blocking'] if preempt else ['--cs-none']), shims=['libc.c', 'sched.c'] + list(shims),
                cbmc=['-DNT=%d' % nt, '-DSLICES=%d' % slices] + (['-DVERIF_STUCK_IS_LEGAL'] if stuck_legal else []) + ([] if preempt else ['-DVERIF_SPIN_IS_DEADLOCK']), unwind=unwind,   # rt/ksync.h and rt/sched.c are loop-free besides the slice loop
